@@ -13,13 +13,13 @@ import (
 )
 
 func init() {
-	register(&Rule{ID: "FSM-1", Props: []string{"C01"}, Floor: 4,
+	register(&Rule{ID: "FSM-1", Props: []string{"C01", "C03"}, Floor: 4,
 		Doc: "shortcut elimination keeps the language: all transitions and terminal-ness of the target are inherited; false only after a full scan found no shortcut", Run: fsm1})
 	register(&Rule{ID: "FSM-2", Props: []string{"C01", "C03"}, Floor: 3,
 		Doc: "graph walks check-then-mark a visited set before recursing; a fixpoint loop has a measure (each true step removes a transition and, if it appends, marks a new key in a set)", Run: fsm2})
 	register(&Rule{ID: "FSM-3", Props: []string{"C01", "C11"}, Floor: 5,
 		Doc: "exhaustive backtracking: every transition is offered to Match, every match is recorded and tried, false only after exhaustion", Run: fsm3})
-	register(&Rule{ID: "FSM-4", Props: []string{"C02", "C09", "C15"}, Floor: 5,
+	register(&Rule{ID: "FSM-4", Props: []string{"C02", "C09", "C15", "C12"}, Floor: 5,
 		Doc: "context isolation: fresh context per transition with the options-ended flag copied, the same context goes to the recursive call, Merge only on its success, Merge appends in order", Run: fsm4})
 	register(&Rule{ID: "FSM-5", Props: []string{"C02", "C06", "C07", "C13", "C19"}, Floor: 4,
 		Doc: "Set/Clear are invoked only by the container filler and the env application; the filler runs only after a successful match and its error is returned", Run: fsm5})
@@ -330,6 +330,30 @@ func fsm1(c *Ctx) {
 		}
 	}
 	c.Check(okTerm, key+":inherit-terminal", fn.Pos(), "the state becomes terminal when the shortcut's target is terminal", "terminal-ness of the shortcut's target is not inherited on every path")
+	// (e) the scan is over a snapshot of the list: once the list was changed the scan must not go on
+	{
+		okRestart := true
+		where := ""
+		ir.Instrs(fn, func(in ssa.Instruction) {
+			st, ok := in.(*ssa.Store)
+			if !ok {
+				return
+			}
+			if b, f, isFA := ir.FieldAddr(st.Addr); isFA && f == "Transitions" && b == ssa.Value(recv) {
+				if !outerHdr.Dominates(st.Block()) {
+					return
+				}
+				for _, sc := range st.Block().Succs {
+					if sc == outerHdr || ir.Reach(sc, nil, nil)[outerHdr] {
+						okRestart = false
+						where = c.P.Pos(st.Pos())
+					}
+				}
+			}
+		})
+		c.Check(okRestart, key+":restart-after-change", fn.Pos(), "after the transition list was rewritten the scan over its old snapshot ends (the caller starts again)",
+			"the scan over the old transition list continues after the list was rewritten at "+where+" (stale indices: wrong or out-of-range removals)")
+	}
 	// (c) removal: the shortcut itself is removed
 	removed := false
 	ir.Instrs(fn, func(in ssa.Instruction) {
